@@ -139,8 +139,15 @@ def gen_data(cfg):
     for which, base_id in (("A", 100000), ("B", 500000)):
         files = gen_files(prng, cfg, which)
         pts_t, pts_file = [], []
+        grid = cfg.get("grid") if which == "B" else None
+        pts_k = []
         for fi, (t0, t1) in enumerate(files):
             n = int(rng.integers(1, cfg[which]["ppf"] + 1))
+            if grid:      # instrument on a fixed grid: every file holds the same positions, some only a few
+                n = 3 if rng.random() < grid["tiny_p"] else grid["n"]
+            elif cfg.get("grid"):
+                n = cfg[which]["ppf"]  # dense track
+            pts_k.extend(range(n))
             ts = rng.integers(t0, t1 + 1, n)
             # points exactly on the file's boundaries (the coverage is closed; with adjoining files
             # the shared second belongs to exactly one file: the harness decides)
@@ -156,6 +163,10 @@ def gen_data(cfg):
         for i in range(n):
             lat[i], lon[i] = M.offset_point(20.0, 30.0, rng.uniform(0, cfg["spread_km"]),
                                             rng.uniform(0, 2 * np.pi), rng)
+        if grid:
+            glat, glon = lat[:grid["n"]].copy(), lon[:grid["n"]].copy()
+            k = np.array(pts_k)
+            lat, lon = glat[k], glon[k]
         sets[which] = {"files": files, "file_of": np.array(pts_file),
                        "pts": {"time": M.T0 + np.array(pts_t, dtype=np.int64) * SEC, "lat": lat,
                                "lon": lon, "id": np.arange(n, dtype=np.int64) + base_id}}
@@ -496,6 +507,16 @@ def gen_cfg(rng):
         cfg["A"]["files"] = min(cfg["A"]["files"], 4)
         cfg["B"]["files"] = min(cfg["B"]["files"], 3)
         cfg["B"]["lengths"] = [600, 1500]
+    if rng.random() < 0.15:
+        # an instrument on a fixed grid (identical positions in consecutive files, a few partial files)
+        # against a dense track: consecutive file pairs of one worker can reuse the spatial index
+        cfg["grid"] = {"n": rng.choice([40, 100]), "tiny_p": 0.3}
+        cfg["mi_s"] = rng.choice([600, 1800])
+        cfg["A"].update({"files": rng.choice([1, 2]), "lengths": [7200, 10800], "gaps": [0], "first": 0,
+                         "ppf": rng.choice([60, 130, 200])})
+        cfg["B"].update({"files": rng.choice([6, 10]), "lengths": [600, 1500], "gaps": [0],
+                         "first": rng.choice([0, 1800])})
+        cfg["collision_probe"] = False
     # period: everything, or cutting through files
     total = 12 * 2400 + 3600
     if rng.random() < 0.5:
@@ -536,6 +557,8 @@ def run_config(rec, rng, cfg):
                 judge(rec, c, res, expected, info, "datasets yielded")
             else:
                 ok = classify_file_output(rec, root, cfg, opt, reg, sets, expected, info, c, res)
+            if cfg.get("grid"):
+                rec.count("runs.fixed_grid")
             if nontriv:
                 rec.nontriv([opt["output"], opt["processes"], opt["bundle"], bool(opt.get("delays")),
                              bool(opt.get("slow_consumer")), len(cfg["B"]["lengths"]),
